@@ -239,7 +239,8 @@ class Inliner:
             if name in sub.methods and sub.methods[name] is not callee:
                 return None
         node = callee.node
-        if node.decorator_list and not callee.is_static:
+        # any decorator other than @staticmethod changes what a call does (caching, wrapping): such helpers stay calls
+        if any(not (isinstance(d, ast.Name) and d.id == 'staticmethod') for d in node.decorator_list):
             return None
         a = node.args
         if a.vararg or a.kwarg or a.kwonlyargs or a.posonlyargs:
